@@ -83,17 +83,29 @@ def worker(case):
     probs = []
     target, opts = case[0]
     n, tag = source(case)
-    tag = "%s->%s" % (tag, target)
+    opts = dict(opts)
+    nameless = bool(opts.pop("_nameless", False))
+    method = bool(opts.pop("_method", False))
+    if nameless and target != ".edf":
+        del n.name
+        tag += ":nameless"
+    tag = "%s->%s%s" % (tag, target, ":method" if method else "")
+
+    def do_compose(path):
+        if method:
+            n.compose(path, **opts)   # the Netlist.compose shortcut
+        else:
+            s.compose(n, path, **opts)
     w = World()
     w.add(n)
     before_raw = snapshot(w, hidden=False)
     edif = target == ".edf"
     before = masked(before_raw, edif, before_raw)
-    key = core.digest((before_raw, target, repr(opts)))
+    key = core.digest((before_raw, target, repr(opts), method, nameless))
     path = os.path.join(core.scratch_dir(), "c16_%d%s" % (os.getpid(), target))
     try:
         with core.quiet():
-            s.compose(n, path, **opts)
+            do_compose(path)
     except Exception as ex:
         return {"key": key, "nontrivial": False, "outcome": "not-composable:" + type(ex).__name__, "problems": [], "transitions": 1}
     first = open(path, "rb").read()
@@ -114,13 +126,13 @@ def worker(case):
         probs.append(("file-incomplete-at-return:" + tag, "bytes differ after gc.collect()"))
     try:
         with core.quiet():
-            s.compose(n, path, **opts)
+            do_compose(path)
         second = open(path, "rb").read()
         if strip_ts(second) != strip_ts(first):
             probs.append(("second-compose-differs:" + tag, "first %d bytes, second %d bytes" % (len(first), len(second))))
         run_queries(n)
         with core.quiet():
-            s.compose(n, path, **opts)
+            do_compose(path)
         third = open(path, "rb").read()
         if strip_ts(third) != strip_ts(first):
             probs.append(("compose-after-queries-differs:" + tag, "first %d bytes, third %d bytes" % (len(first), len(third))))
@@ -181,6 +193,13 @@ def cases(tier):
                 out.append(((t, opts),) + src + ("asc",))
         if src[0] == "verilog-text":
             out.append(((".v", {"definition_list": ["top"], "write_blackbox": True}),) + src + ("asc",))
+        if src[0] in ("api-base", "verilog-text", "eblif-text"):
+            # the Netlist.compose shortcut, also on a netlist that has no name
+            for t in TARGETS:
+                out.append(((t, {"_method": True}),) + src + ("asc",))
+                if t != ".edf":
+                    out.append(((t, {"_method": True, "_nameless": True}),) + src + ("asc",))
+                    out.append(((t, {"_nameless": True}),) + src + ("asc",))
     return out
 
 
